@@ -573,7 +573,7 @@ def _terminates(stmts):
     return False
 
 
-def implicit_guards(node, stop):
+def implicit_guards(node, stop, raising=True):
     """(If, 'orelse') for every earlier sibling ``if c: <never falls
     through>`` without else, at any enclosing block level up to ``stop``:
     the statement only runs when c was false (guard-clause form of
@@ -590,11 +590,27 @@ def implicit_guards(node, stop):
                         break
                     if isinstance(s, ast.If) and not s.orelse and \
                             _terminates(s.body):
+                        if not raising and isinstance(s.body[-1],
+                                                      ast.Raise):
+                            # a raising guard aborts, it does not skip
+                            continue
                         out.append((s, 'orelse'))
         if cur is stop:
             break
         child = cur
         cur = getattr(cur, '_parent', None)
+    return out
+
+
+def skip_conds(node, stop):
+    """Literals under which ``node`` is *skipped or selected* inside
+    ``stop``: enclosing ifs that do not raise in their other arm, and
+    earlier guard clauses that continue / return / break (not those that
+    raise: a rejection is not a skip)."""
+    out = []
+    for i, br in list(guarding_ifs(node, stop)) + implicit_guards(
+            node, stop, raising=False):
+        lits(i.test, br == 'body', out)
     return out
 
 
